@@ -259,17 +259,14 @@ def hybrid_rush_larsen(
         linearized = sympy.Symbol(linearized_name)
         eqs.append(printer(linearized, expr_diff, use_variable_prefix=True))
 
-        need_zero_div_check = not fraction_numerator_is_nonzero(expr_diff)
-        if not need_zero_div_check:
-            logger.debug(f"{linearized_name} cannot be zero. Skipping zero division check")
-
-        RL_term = x.symbol / linearized * (sympy.exp(linearized * dt) - 1)
-        if need_zero_div_check:
-            RL_term = sympytools.Conditional(
-                abs(linearized) > delta,
-                RL_term,
-                dt * x.symbol,
-            )
+        # Always guard with ``delta``: a linearization that cannot be exactly zero
+        # (e.g. 1/x) can still be smaller than ``delta``, where f/g*(exp(g*dt) - 1)
+        # loses all accuracy and the scheme has to fall back to forward Euler.
+        RL_term = sympytools.Conditional(
+            abs(linearized) > delta,
+            x.symbol / linearized * (sympy.exp(linearized * dt) - 1),
+            dt * x.symbol,
+        )
         eqs.append(
             printer(
                 values[i],
@@ -350,17 +347,14 @@ def generalized_rush_larsen(
         linearized = sympy.Symbol(linearized_name)
         eqs.append(printer(linearized, expr_diff, use_variable_prefix=True))
 
-        need_zero_div_check = not fraction_numerator_is_nonzero(expr_diff)
-        if not need_zero_div_check:
-            logger.debug(f"{linearized_name} cannot be zero. Skipping zero division check")
-
-        RL_term = x.symbol / linearized * (sympy.exp(linearized * dt) - 1)
-        if need_zero_div_check:
-            RL_term = sympytools.Conditional(
-                abs(linearized) > delta,
-                RL_term,
-                dt * x.symbol,
-            )
+        # Always guard with ``delta``: a linearization that cannot be exactly zero
+        # (e.g. 1/x) can still be smaller than ``delta``, where f/g*(exp(g*dt) - 1)
+        # loses all accuracy and the scheme has to fall back to forward Euler.
+        RL_term = sympytools.Conditional(
+            abs(linearized) > delta,
+            x.symbol / linearized * (sympy.exp(linearized * dt) - 1),
+            dt * x.symbol,
+        )
         eqs.append(
             printer(
                 values[i],
